@@ -827,6 +827,10 @@ class CosimEngine(Engine):
         obj = pathlib.Path('no-such-log-%d.lammps' % st['nsynth']) if src['kind'] == 'pathobj' else _io.StringIO('LAMMPS (1 Jan 2020)\n')
         ok, out = ctx.sut(log.read, obj) if append else ctx.sut(log.read, obj, append=False)
         ctx.fault('unopenable_source')
+        if ok and src['kind'] == 'pathobj':
+            # "given as text, file path or stream": a Path object is a file path and nothing else; where no file is there is no log
+            raise Violation('C19.F', {'what': 'a pathlib.Path that names no file was read as if it were a log', 'append': append,
+                                      'nsims': len(log.simulations), 'version': log.lammps_version}, klass='refused-read/missing-path-accepted')
         if ok:
             # taken after all: for the text stream that is a log with a banner and no run
             if not append:
